@@ -31,7 +31,7 @@ T_RPC, T_NODE, T_KEY, T_TOKEN, T_PENDING, T_SELF, T_KNOWN, T_TEXT, T_BLOB0, T_PR
 T_BIG = 40
 SENDER = ('1.2.3.4', 4444)
 HANG_CAP = 6          # stop feeding after this many hangs (each costs a watchdog period)
-WATCHDOG_S = 2.0
+WATCHDOG_S = 8.0      # generous: a real hang never returns; a loaded machine must not look like one
 
 STRUCTURAL = set(b'0123456789-:ilde')
 SAFE = bytes(b for b in range(256) if b not in STRUCTURAL)
